@@ -3,8 +3,21 @@
 Copies a sub-agent's deliverables into seeded/<id>/ with a normalised meta.json."""
 import json, os, shutil, sys
 V = os.path.dirname(os.path.dirname(os.path.abspath(__file__)))
-out, sid, demo_dir, demo_cmd = sys.argv[1:5]
-checks = sys.argv[5:]
+import re
+if sys.argv[1] == "--auto":
+    # tools/import_seed.py --auto <out-dir> <seeded-id> [check ...]: demo dir and command derived from meta.json / demo_test.go
+    out, sid = sys.argv[2:4]
+    checks = sys.argv[4:]
+    m0 = json.load(open(os.path.join(out, "meta.json")))
+    demo_dir = re.split(r"[ (;,]", m0["demo_dir"].strip())[0].rstrip("/")
+    if demo_dir.startswith("/"):
+        demo_dir = demo_dir[demo_dir.index("v3"):]
+    tests = re.findall(r"^func (Test\w+)\(", open(os.path.join(out, "demo_test.go")).read(), re.M)
+    race = " -race" if "-race" in m0.get("demo_cmd", "") else ""
+    demo_cmd = "go test -vet=off -count=1%s -run '^(%s)$' ." % (race, "|".join(tests))
+else:
+    out, sid, demo_dir, demo_cmd = sys.argv[1:5]
+    checks = sys.argv[5:]
 d = os.path.join(V, "seeded", sid)
 os.makedirs(d, exist_ok=True)
 m = json.load(open(os.path.join(out, "meta.json")))
